@@ -111,6 +111,20 @@ def run(ctx: Ctx):
             if not any(h.type is None or ast.unparse(h.type) in ("Exception", "BaseException")
                        for h in t.handlers):
                 ctx.fail(cons + "#narrow", R.f.loc(t), "the handler around dispatch does not catch Exception")
+            # every handler of that try answers (or re-raises): none swallows a failure silently
+            for h in t.handlers:
+                own = [s_ for s_ in hs if h in _anc(R.f.node, s_.ast)]
+                reraises = any(isinstance(x, ast.Raise) for x in A.stmts_walk(h.body))
+                okh = False
+                for s_ in own:
+                    av_ = R.answer_var_of_send(s_)[1]
+                    if R.result_code_store(av_, s_)[0] == UNABLE:
+                        okh = True
+                if not okh and not reraises:
+                    ctx.fail(cons + "#swallow", R.f.loc(h), f"`except "
+                             f"{ast.unparse(h.type) if h.type is not None else ''}` around dispatch "
+                             f"neither answers 5012 nor re-raises: a request whose handling fails "
+                             f"with that exception is never answered")
 
     # ---------------- R2 validation branch ------------------------------------------------
     ctx.rule("C08-R2", "required-AVP validation: request & switch -> 5005 + Failed-AVP(list) + one "
@@ -213,6 +227,8 @@ def run(ctx: Ctx):
 
     _app_request(ctx, R, E)
     _routes(ctx, model, nc)
+    from .common_node import identity_semantics
+    identity_semantics(ctx, "C08-R7")
     from . import c06
     ctx.include(c06.run, {"C06-R1"}, "C08-R6",
                 "on a connection in either ready sub-state every received message reaches the "
@@ -328,6 +344,19 @@ def _app_request(ctx: Ctx, R: RecvModel, E):
         if it in after:
             ctx.fail(cons + "#first", g.loc(d), "the search continues after a match: a later "
                      "application overrides the first match")
+    # delivered exactly when selected: no condition on the connection or on node state narrows it
+    cons_x = "_receive_app_request:delivery#extra-condition"
+    ctx.inst(cons_x, sample=[list(map(str, x)) for x in facts])
+    import re as _re
+    for fx in facts:
+        txt = f"{fx[0]} {fx[2] if isinstance(fx[2], str) else ''}"
+        refs_conn = _re.search(rf"\b{_re.escape(conn)}\.", txt) is not None
+        refs_self = [a for a in _re.findall(r"\bself\.(\w+)", txt) if a not in ("_peer_routes", "applications")]
+        if refs_conn or refs_self:
+            ctx.fail(cons_x, g.loc(dn), f"delivery to the matching application additionally requires "
+                     f"{fx}: on a ready connection (either ready sub-state) a request that matches a "
+                     f"registered application is withheld from it")
+            break
     # delivered only if selected; recorded before delivery; returns afterwards
     if (appvar, "truthy", None, True) not in facts:
         ctx.fail(cons + "#guard", g.loc(dn), "delivery is not conditioned on an application having "
@@ -377,6 +406,13 @@ def _app_request(ctx: Ctx, R: RecvModel, E):
             lambda t: at.label_when(t, lambda a: False if (a.subject == appvar and a.op == "truthy") else None)))
         if n3007[0] in r and (appvar, "truthy", None, False) not in must_facts(g, at, n3007[0], tracker=tracker):
             ctx.fail(cons + "#guard", g.loc(n3007[0]), "3007 can be sent although an application was selected")
+    cons = "_receive_app_request:outcome-codes"
+    ctx.inst(cons, sample=sorted(str(k) for k in outcomes))
+    for code, ns in outcomes.items():
+        if code not in (REALM, APPUN):
+            ctx.fail(cons, g.loc(ns[0]), f"_receive_app_request answers a request itself with result "
+                     f"code {code}: the only self-made outcomes of routing are 3003 (realm not "
+                     f"served) and 3007 (no matching application)")
     for code, ns in outcomes.items():
         for n in ns:
             av = A.dotted(n.ast.targets[0]).rsplit(".", 1)[0]
